@@ -77,18 +77,31 @@ class Check:
         pat, owner, path = mm.group(1), mm.group(2), mm.group(3)
         ipat = iprod = -1
         prod_step = None
+        restarted = True
         for i, e in enumerate(self.raw):
+            if e[0] in ("kill", "start"):
+                restarted = True
             if e[0] != "req":
                 continue
             req = e[2]
             if req[0] == "register_glob" and req[2] == pat:
-                ipat = i
+                # the same pattern text may be registered with several substitutions: only a
+                # registration whose regex matches the product is the one in question
+                from stepup.core.nglob import convert_nglob_to_regex
+
+                if re.fullmatch(convert_nglob_to_regex(pat, dict(req[3] or {})), path):
+                    ipat = i
             elif req[0] == "declare_static" and any(p[0] == pat for p in req[4]):
                 ipat = i
             elif req[0] == "define_step" and path in (list(req[5]) + list(req[6])):
-                iprod, prod_step = i, req[2]
+                # repeating a declaration while its owner is attached is a no-op, not a new claim
+                if restarted or prod_step != req[2]:
+                    iprod, prod_step = i, req[2]
+                restarted = False
             elif req[0] == "amend_step" and path in (list(req[4]) + list(req[5])):
-                iprod, prod_step = i, e[1]
+                if restarted or prod_step != e[1]:
+                    iprod, prod_step = i, e[1]
+                restarted = False
         if ipat > iprod:
             finished = any(e[0] == "exit" and e[1] == prod_step for e in self.raw[iprod:ipat])
             return "unbuilt-product-declared-first" if not finished else "pattern-accepted-over-built-product"
@@ -161,6 +174,9 @@ def jobs(tier, seed):
     depth = 6 if tier == "quick" else 8
     for root in opx.split_frontier(m, [("start", ())], 3):
         out.append({"part": "recycle", "root": root, "depth": depth - 2})
+    m2 = opx.Machine(menu=SUBS_MENU, njob=3, targets_menu=((),), fs_events=False, exits=["ok"], allow_kill=False)
+    for root in opx.split_frontier(m2, [("start", ())], 1):
+        out.append({"part": "recycle", "menu": "subs", "root": root, "depth": 3 if tier == "quick" else 4})
     if tier == "thorough":
         for ia in idx:
             out.append({"part": "triples", "ia": ia, "tier": tier})
@@ -320,13 +336,21 @@ import os  # noqa: E402
 RECYCLE_MENU = [opx.MENU_STEPS[5], opx.MENU_STATIC[8], opx.MENU_STATIC[7]]
 
 
+# the same pattern text registered with different substitutions of its named wildcard (matches
+# scanned on the real tree as the client does), and products named b
+SUBS_MENU = [("register_glob", "$job", "${*n}", {"n": "[a]"}, "$glob"),
+             ("register_glob", "$job", "${*n}", {"n": "[b]"}, "$glob"),
+             opx.step_req("s3", [], ["b"]), opx.MENU_AMEND[4], opx.step_req("s2", [], [], ["b"])]
+
+
 def run_recycle(spec, acc):
     """Declarations that arrive while an earlier owner is detached but recyclable: a step is
     defined (and may run), its creator is killed and runs again, patterns and steps are declared
     in every order. Breadth-first over canonical states, invariants at every commit."""
     check = Check(acc)
-    m = opx.Machine(menu=RECYCLE_MENU, njob=3, check=check, targets_menu=((),), fs_events=False,
-                    exits=["ok"])
+    menu = SUBS_MENU if spec.get("menu") == "subs" else RECYCLE_MENU
+    m = opx.Machine(menu=menu, njob=3, check=check, targets_menu=((),), fs_events=False,
+                    exits=["ok"], allow_kill=spec.get("menu") != "subs")
     orig = m.replay
 
     def replay(events):
